@@ -171,6 +171,10 @@ fn pick_outcome(rng: &mut Rng, p: &Profile, en: &[Outcome]) -> Outcome {
     if en.len() == 1 {
         return en[0];
     }
+    if en.len() == 2 && en.contains(&Outcome::Run) && en.contains(&Outcome::Panic) {
+        // `Manager::detach` about to be called: it panics now and then
+        return if rng.chance(if p.w_out[3] > 1 { 8 } else { 2 }) { Outcome::Panic } else { Outcome::Run };
+    }
     let all = [
         Outcome::Ok,
         Outcome::Err,
